@@ -22,7 +22,12 @@ CHECKS = {
 
 SCHED = "stateless model checking: exhaustive preemption-bounded schedule enumeration of real threads under a cooperative scheduler"
 COMP = "exhaustive enumeration of inputs / operation sequences on the real component"
+QEXPR = "exhaustive enumeration of small value tuples / lists substituted into query templates executed by the real engine"
 CHECKS.update({
+ "C20": ("E-QUERY", QEXPR, "All lists up to the bound over a 33-value alphabet through UNWIND .. ORDER BY [DESC] [SKIP] [LIMIT]: permutation, adjacent-pair order against a reference comparator (only where Cypher's order is uncontroversial), independence of the input permutation, slices; plus a two-key family.", "cross-type order and date-like strings are judged only by permutation invariance", "3/C20"),
+ "C21": ("E-QUERY", QEXPR, "All lists up to the bound over numeric boundary values (and mixed-type lists for count/collect), with all grouping-key lists of the same length: count(*), count, sum, avg, min, max, collect, DISTINCT variants against a direct fold with exact arithmetic.", "sum may be an exact Int, an error, or a Float close to the exact value - never a wrapped Int", "3/C21"),
+ "C22": ("E-QUERY", QEXPR, "Failing expressions x failing-row position x 22 result operators (RETURN, DISTINCT, UNION [ALL] either arm, ORDER BY, WITH, aggregates, CALL {}, SKIP, LIMIT, comprehension, CASE and nestings); a control run with good rows must succeed, the run with one bad row must report an error.", "early-terminating operators are only used with the failing row inside the consumed prefix", "3/C22"),
+ "C23": ("E-QUERY", QEXPR, "All pairs (and all triples for transitivity) over a 33-value alphabet substituted into expression templates: truth tables, De Morgan, null propagation, equality laws, numeric comparisons against exact rational comparison, integer overflow rule of + - * unary minus abs.", "pow and division are checked for null propagation only", "3/C23"),
  "C07": ("E-SEQ", SEQ, "All enabled base histories up to the depth bound; for every position and every write body enabled there (incl. vector insertions, new labels / relationship types, index-relevant property changes) the history with that body in a transaction that is dropped must give the same dump, the same vector-search answers and the same dump after reopen as the history without it.", "abandonment = dropping the storage WriteTxn (what ndb_txn_rollback does); statement-level abandonment is C13", "3/C07"),
  "C31": ("E-COMP", COMP, "NERVUSDB_HNSW_M=2; all sequences up to the bound over set_vector (3 nodes x 4 vectors x every HNSW level choice 0..2), delete node, reopen; after every step every query of a grid x k in {1,2,5}: at most k distinct live hits with exact distances to the latest vector, sorted, and exactly the k nearest while at most 5 vectors are stored.", "the HNSW level draw is replaced by an enumerated choice through the hooks", "3/C31"),
  "C05": ("E-SEQ", SEQ, "All enabled write histories up to the depth bound; for every insertion position (and every pair of positions) the history with Compact / Checkpoint inserted must end in the same full dump as the history without; plus an overwrite-and-compact family of N rounds on a 2000-byte key.", "differential oracle (same engine with and without the maintenance operation)", "3/C05"),
